@@ -75,6 +75,16 @@ func genC13(g *G, n int, out io.Writer) {
 		w.line(0, "violation:")
 		w.line(1, "- "+yq(c.VName))
 		w.line(0, "validations:")
+		if i%4 == 1 {
+			// a validation no level lists, defined FIRST, whose name differs from the listed one only in the case of its first letter:
+			// names are compared as written, so it is ignored and the listed validation keeps its own message and constraints
+			w.line(1, yq("V"+c.VName[1:])+":")
+			w.line(2, "targetClass: ex.T")
+			w.line(2, "message: \"message of another validation\"")
+			w.line(2, "propertyConstraints:")
+			w.line(3, "ex.p0:")
+			w.line(4, "minCount: 7")
+		}
 		w.line(1, yq(c.VName)+":")
 		w.line(2, "targetClass: ex.T")
 		w.line(2, "message: "+yq(c.Message))
